@@ -916,7 +916,7 @@ impl Prop for C16 {
 
     fn describe(&self) -> Describe {
         Describe {
-            rule: "one case = (length, simulated CPU count, data vectors, basis-probe indices, K schedule policies); the real dot_f64 is executed 2+|probes| times in each of K shuttle executions under our seeded scheduler. Grid part: every (len 0..=200) x (CPUs 1..=16) pair, alternating exact-integer and general-float data; random part: len up to 5000, CPUs up to 200, families qW-1,qW,qW+1. A case is distinct by the hash of (len, CPUs, all data bits) and non-trivial when len >= 1; distinct interleavings = distinct task-id traces.".into(),
+            rule: "one case = (length, simulated CPU count, data vectors, basis-probe indices, K schedule policies); the real dot_f64 is executed 2+|probes| times in each of K shuttle executions under our seeded scheduler. Grid part: every (len 0..=200) x (CPUs 1..=16) pair, alternating exact-integer and general-float data; random part: len up to 5000 (15% of a band up to 150k, 2% of it 1M..5M), CPUs up to 200, families qW-1,qW,qW+1, data 45% exact-integer / 45% general-float / 10% special (a few NaN, +-Inf or zero entries, sometimes opposite an all-zero partner: the class NaN/+Inf/-Inf/finite of the result must equal that of the sequential product); swarm faults per case: in-place change of one element between calls, a concurrent second caller, refused thread creation from the k-th spawn, a CPU count that alternates between consultations. A case is distinct by the hash of (len, CPUs, all data bits) and non-trivial when len >= 1; distinct interleavings = distinct task-id traces.".into(),
             assumptions: vec![
                 "shuttle's coroutine model of std::thread::scope/spawn/join is faithful for code whose worker bodies contain no synchronisation (true of dot_f64: bodies read disjoint immutable slices)".into(),
                 "the CPU-count override models num_cpus::get(); both are cross-checked by the Miri engine (real std threads, -Zmiri-num-cpus) in the thorough tier".into(),
